@@ -58,6 +58,15 @@ def discover(fnmap):
             if rp.aid:
                 cand = [rp]
         if not cand:
+            # scalar overloads (xsimd_scalar.hpp): all parameters scalars of one element type
+            sc = [p for p in fn.ptypes if p.kind == "scalar" and not getattr(p, "is_bool", False)]
+            if fn.level == "api" and sc and os.path.basename(f.get("file", "")) == "xsimd_scalar.hpp":
+                fn.tid, fn.aid = sc[0].tid, None
+                fn.kinds = "".join("b" if getattr(p, "is_bool", False) else "S" for p in fn.ptypes if p.kind == "scalar")
+                fn.row = table.lookup(fn)
+                if fn.row is not None:
+                    fn.file, fn.line = f.get("file", ""), f.get("line", 0)
+                    out[name] = fn
             continue
         fn.tid, fn.aid = cand[0].tid, cand[0].aid
         fn.row = table.lookup(fn)
